@@ -415,7 +415,7 @@ def repr_features(sig):
     p = sig.split('/')
     if p[0] == 'ragged':
         return p[1], int(p[3].split('=')[1])
-    return p[0] + ('' if len(p) < 2 or p[1] == 'contiguous' else '-strided'), None
+    return 'ndarray', None
 
 
 def decode(x, enc_obj):
@@ -542,12 +542,20 @@ def _empty_class(v):
     return 'no-empty-row'
 
 
+CONVERSIONS = ('string-array', 'tolist', 'to-string', 'join', 'split', 'ravel', 'copy', 'concat-self')
+
+
 def _features(op_name, phase, operand_value, operand_sig, exc=None):
+    """facts about the case: which operation, on what kind of operand in which representation.  Coarse on purpose:
+    one root cause should give few signatures, different root causes different ones."""
     cls, step = repr_features(operand_sig)
+    if op_name in ('set_i', 'set_elem'):
+        op_name = 'assign-scalar-index'
+    elif op_name.startswith('set_'):
+        op_name = 'assign'
     f = {'op': op_name, 'phase': phase, 'on': operand_value[0], 'repr': cls,
          'col_step': None if step is None else ('1' if step == 1 else 'not 1'),
-         'read_only': bool(operand_sig) and operand_sig.endswith('/read-only'),
-         'no_characters': S.size(operand_value) == 0, 'exc': None, 'frame': None}
+         'no_characters': (S.size(operand_value) == 0) if op_name in CONVERSIONS else None, 'exc': None, 'frame': None}
     if exc is not None:
         f['exc'] = type(exc).__name__
         f['frame'] = '%s:%s' % raising_frame(exc)
@@ -567,7 +575,12 @@ def judge_transition(run):
             raise HarnessBug('history %r raised at inner step %d: %r' % (run.hist, e.step, e.exc))
         if _is_unsupported(e.exc):
             return {'status': 'unsupported', 'fails': [], 'calls': len(run.hist) + 1}
-        f = _features(last_op, 'transition', prev.t, _operand_signature(run), e.exc)
+        osig = _operand_signature(run)
+        if last_op.startswith('set_') and osig is not None and osig.endswith('/read-only'):
+            # as_encoded_array(str) wraps np.frombuffer for ASCII: the NumPy array itself is read-only, and a read-only NumPy
+            # array refuses assignment too -- "behaves like the NumPy array" holds; not judged
+            return {'status': 'unsupported', 'fails': [], 'calls': len(run.hist) + 1, 'why': 'assignment-to-read-only-buffer'}
+        f = _features(last_op, 'transition', prev.t, osig, e.exc)
         fails.append(('raises', f, 'succeeds', '%s: %s' % (type(e.exc).__name__, str(e.exc)[:200]), e.exc, None))
         return {'status': 'transition-failed', 'fails': fails, 'calls': len(run.hist) + 1}
     enc_obj = ns['ENC'] if ns['ENC'] is not None else ns['bnp'].BaseEncoding
@@ -668,7 +681,7 @@ def explore(res, root, enc, depth, deadline):
             case = {'root': root, 'enc': enc, 'hist': run.hist}
             if r['status'] == 'unsupported':
                 res.unsupported += 1
-                res.outcome('unsupported:' + run.hist[-1][0])
+                res.outcome('not-judged:%s:%s' % (r.get('why', 'numpy-reports-no-implementation'), run.hist[-1][0]))
                 continue
             if r['status'] == 'transition-failed':
                 for kind, f, exp, obs, exc, ob in r['fails']:
@@ -721,13 +734,16 @@ def _thaw(op):
 
 
 def run_shard(desc, deadline):
+    import time
     res = Result()
     rs = roots(desc['tier'], desc.get('seed', 0))
+    t0 = time.process_time()
     for i in desc['roots']:
         root, depth = rs[i]
         explore(res, root, desc['enc'], depth, deadline)
         if res.capped:
             break
+    res.extra['cpu_seconds (sum over shards)'] += round(time.process_time() - t0, 2)
     return res
 
 
